@@ -14,6 +14,22 @@ TV = 'translation_validation'
 
 # id -> (category, text, design_ref, level_note, technique)
 CLAIMS = {
+    'C06': (MC,
+            'FdlEq states the property (level A, Equiv: canonical forms coincide after making defaults explicit and '
+            'forgetting tags, history and dict order) and transcribes fiddle\'s comparison algorithm (level B, '
+            'EqImpl: structural value comparison plus the sharing structure of a memoized traversal at every '
+            'Buildable node). MC_C06 explores pairs (x, y) where y is a deep copy of x changed by one generic '
+            'rewrite (any leaf, default, redirect of a reference to any other object, fresh copy of a target, '
+            'callable, Buildable type, dict order); TLC checks EqImpl = Equiv, Equiv => identical built graphs, and '
+            'symmetry, and a negative control (the algorithm as found) must violate the refinement. Every pair is '
+            'replayed on the real library (x==y, y==x, x!=y, x==x, never raising, agreeing with Equiv; equal pairs '
+            'are built and compared; every second y is realised through a different edit history); random chains '
+            'x->y->z on larger configurations are judged by Trace_C06 including transitivity.',
+            'DESIGN.md §5 C06',
+            'Trusted: TLC, harness projection. Leaves are NaN-free ints; dict key 3 is an int among string keys. '
+            'Tags do not take part in == (not listed by the statement).',
+            'TLA+ refinement (comparison algorithm vs equivalence) with negative control; pair replay; recorded '
+            'chains judged by the specification'),
     'C14': (MC,
             'FdlTags gives every tag operation a functional semantics on the heap machine (tag hierarchy as a '
             'bitmask: T0 > T1, T2 unrelated): set_tagged / select(tag).replace with and without deepcopy, '
